@@ -6,8 +6,10 @@ import FancyModel.Lemmas.Atomize2
 `sim5_visit`: the code `visit br e hard` emits simulates the semantics of `atomizeP br e hard`
 (Spec/Stage5.lean) — the tree in which every delegated run that owns capture groups and is not linear
 is wrapped in an atomic group. It is `sim3_visit` (Lemmas/SimCompile3.lean) with `sim4_run`
-(Lemmas/SimCompile4.lean) at the two call sites for the runs of a concatenation; the leaves and the
-look-behinds (whose bodies stay at stage S3) are handed to `sim3_visit` itself.
+(Lemmas/SimCompile4.lean) at the two call sites for the runs of a concatenation; the leaves are handed to
+`sim3_visit` itself. Look-behind bodies: the layouts are wrapped around the code of `e` while the semantics
+is that of `atomizeP br e false` (`sim5_posBehind_wrap`, `sim5_negBehind_wrap`; `atomizeP_const`,
+`atomizeP_isAlt`: the atomized body has the same constant size, `noBareEndZ`, alternation shape).
 
 The combinators for the loops want the body well shaped and of positive minimum size:
 `atomizeP_shape` (both are kept by `atomizeP`).
@@ -138,25 +140,10 @@ theorem atomizeP_shape (br : Nat → Bool) : ∀ (e : Expr) (hard : Bool),
         have := atomizeP_shape br e (if (lo == 0 && hi == some 1) = true then hard else true)
         exact ⟨this.1, by rw [this.2]⟩
       | look e la =>
-        cases la with
-        | ahead =>
-          rw [atomizeP]
-          simp only [hdel, Bool.false_eq_true, ↓reduceIte]
-          simp only [wellShaped, minSize]
-          exact ⟨(atomizeP_shape br e false).1, trivial⟩
-        | aheadNeg =>
-          rw [atomizeP]
-          simp only [hdel, Bool.false_eq_true, ↓reduceIte]
-          simp only [wellShaped, minSize]
-          exact ⟨(atomizeP_shape br e false).1, trivial⟩
-        | behind =>
-          rw [atomizeP.eq_def]
-          simp only [hdel, Bool.false_eq_true, ↓reduceIte]
-          exact ⟨id, by simp⟩
-        | behindNeg =>
-          rw [atomizeP.eq_def]
-          simp only [hdel, Bool.false_eq_true, ↓reduceIte]
-          exact ⟨id, by simp⟩
+        rw [atomizeP]
+        simp only [hdel, Bool.false_eq_true, ↓reduceIte]
+        simp only [wellShaped, minSize]
+        exact ⟨(atomizeP_shape br e false).1, trivial⟩
       | atomic e =>
         rw [atomizeP]
         simp only [hdel, Bool.false_eq_true, ↓reduceIte]
@@ -177,7 +164,241 @@ theorem atomizeP_shape (br : Nat → Bool) : ∀ (e : Expr) (hard : Bool),
 termination_by e => sizeOf e
 decreasing_by all_goals (simp_wf; (try subst_vars); (try simp); (try omega))
 
-/-! ## Leaves and look-behinds: nothing to atomize -/
+
+/-! ## … and the constant size, `noBareEndZ`, being an alternation (for look-behind bodies) -/
+
+theorem constSizeAll_append5 : ∀ (a b : List Expr), constSizeAll (a ++ b) = (constSizeAll a && constSizeAll b)
+  | [], b => by simp [constSizeAll]
+  | e :: a, b => by simp [constSizeAll, constSizeAll_append5 a b, Bool.and_assoc]
+
+theorem noBareEndZAll_append5 : ∀ (a b : List Expr), noBareEndZAll (a ++ b) = (noBareEndZAll a && noBareEndZAll b)
+  | [], b => by simp [noBareEndZAll]
+  | e :: a, b => by simp [noBareEndZAll, noBareEndZAll_append5 a b, Bool.and_assoc]
+
+theorem constSizeAll_runA5 (es : List Expr) : constSizeAll (runA5 es) = constSizeAll es := by
+  unfold runA5
+  split
+  · rfl
+  · simp [constSizeAll, constSize]
+
+theorem noBareEndZAll_runA5 (es : List Expr) : noBareEndZAll (runA5 es) = noBareEndZAll es := by
+  unfold runA5
+  split
+  · rfl
+  · simp [noBareEndZAll, noBareEndZ]
+
+theorem constSizeAll_map_of (f : Expr → Expr) : ∀ (es : List Expr), (∀ e, e ∈ es → constSize (f e) = constSize e) →
+    constSizeAll (es.map f) = constSizeAll es
+  | [], _ => rfl
+  | e :: es, h => by
+    simp only [List.map_cons, constSizeAll, h e (by simp),
+      constSizeAll_map_of f es (fun e' he' => h e' (by simp [he']))]
+
+theorem noBareEndZAll_map_of (f : Expr → Expr) : ∀ (es : List Expr), (∀ e, e ∈ es → noBareEndZ (f e) = noBareEndZ e) →
+    noBareEndZAll (es.map f) = noBareEndZAll es
+  | [], _ => rfl
+  | e :: es, h => by
+    simp only [List.map_cons, noBareEndZAll, h e (by simp),
+      noBareEndZAll_map_of f es (fun e' he' => h e' (by simp [he']))]
+
+theorem allMinSize_map_of (f : Expr → Expr) (m : Nat) : ∀ (es : List Expr), (∀ e, e ∈ es → minSize (f e) = minSize e) →
+    allMinSize m (es.map f) = allMinSize m es
+  | [], _ => rfl
+  | e :: es, h => by
+    simp only [List.map_cons, allMinSize, h e (by simp),
+      allMinSize_map_of f m es (fun e' he' => h e' (by simp [he']))]
+
+/-- `atomizeP` keeps the constant size and `noBareEndZ` -/
+theorem atomizeP_const (br : Nat → Bool) : ∀ (e : Expr) (hard : Bool),
+    constSize (atomizeP br e hard) = constSize e ∧ noBareEndZ (atomizeP br e hard) = noBareEndZ e
+  | e, hard => by
+    by_cases hdel : (!hard && !isHard br e) = true
+    · rw [atomizeP_easy br e hard hdel]; exact ⟨rfl, rfl⟩
+    · cases e with
+      | concat es =>
+        rw [atomizeP]
+        simp only [hdel, Bool.false_eq_true, ↓reduceIte]
+        have hle := concatSplit_le br es hard
+        generalize concatSplit br es hard = sp at hle ⊢
+        rw [atomizeAll_eq_map, ← List.map_drop, ← List.map_take]
+        have hmem : ∀ e', e' ∈ (es.drop sp.1).take (sp.2 - sp.1) → e' ∈ es :=
+          fun e' he' => List.mem_of_mem_drop (List.mem_of_mem_take he')
+        have hsuf : constSizeAll (if hard = true then runA5 (es.drop sp.2) else es.drop sp.2) = constSizeAll (es.drop sp.2) ∧
+            noBareEndZAll (if hard = true then runA5 (es.drop sp.2) else es.drop sp.2) = noBareEndZAll (es.drop sp.2) := by
+          cases hard with
+          | true => simp only [if_true]; exact ⟨constSizeAll_runA5 _, noBareEndZAll_runA5 _⟩
+          | false => simp
+        refine ⟨?_, ?_⟩
+        · simp only [constSize]
+          rw [constSizeAll_append5, constSizeAll_append5, constSizeAll_runA5, hsuf.1]
+          rw [constSizeAll_map_of _ _ (fun e' he' => by
+            have := List.sizeOf_lt_of_mem (hmem e' he')
+            exact (atomizeP_const br e' true).1)]
+          rw [← constSizeAll_append5, ← constSizeAll_append5, ← concat_three es sp.1 sp.2 hle.1]
+        · simp only [noBareEndZ]
+          rw [noBareEndZAll_append5, noBareEndZAll_append5, noBareEndZAll_runA5, hsuf.2]
+          rw [noBareEndZAll_map_of _ _ (fun e' he' => by
+            have := List.sizeOf_lt_of_mem (hmem e' he')
+            exact (atomizeP_const br e' true).2)]
+          rw [← noBareEndZAll_append5, ← noBareEndZAll_append5, ← concat_three es sp.1 sp.2 hle.1]
+      | alt es =>
+        rw [atomizeP]
+        simp only [hdel, Bool.false_eq_true, ↓reduceIte]
+        rw [atomizeAlts_eq_map]
+        have hcs : ∀ e', e' ∈ es → constSize (atomizeP br e' hard) = constSize e' := fun e' he' => by
+          have := List.sizeOf_lt_of_mem he'
+          exact (atomizeP_const br e' hard).1
+        have hnz : ∀ e', e' ∈ es → noBareEndZ (atomizeP br e' hard) = noBareEndZ e' := fun e' he' => by
+          have := List.sizeOf_lt_of_mem he'
+          exact (atomizeP_const br e' hard).2
+        have hms : ∀ e', e' ∈ es → minSize (atomizeP br e' hard) = minSize e' := fun e' _ => (atomizeP_shape br e' hard).2
+        refine ⟨?_, ?_⟩
+        · simp only [constSize]
+          rw [constSizeAll_map_of _ _ hcs]
+          cases es with
+          | nil => rfl
+          | cons e0 es' =>
+            have h2 := allMinSize_map_of (fun e => atomizeP br e hard) (minSize e0) (e0 :: es') hms
+            simp only [List.map_cons] at h2 ⊢
+            rw [hms e0 (by simp), h2]
+        · simp only [noBareEndZ]
+          exact noBareEndZAll_map_of _ _ hnz
+      | group g e =>
+        rw [atomizeP]
+        simp only [hdel, Bool.false_eq_true, ↓reduceIte]
+        simp only [constSize, noBareEndZ]
+        exact atomizeP_const br e hard
+      | «repeat» e lo hi gr =>
+        rw [atomizeP]
+        simp only [hdel, Bool.false_eq_true, ↓reduceIte]
+        simp only [constSize, noBareEndZ]
+        have := atomizeP_const br e (if (lo == 0 && hi == some 1) = true then hard else true)
+        exact ⟨by rw [this.1], this.2⟩
+      | look e la =>
+        rw [atomizeP]
+        simp only [hdel, Bool.false_eq_true, ↓reduceIte]
+        simp only [constSize, noBareEndZ]
+        exact ⟨trivial, trivial⟩
+      | atomic e =>
+        rw [atomizeP]
+        simp only [hdel, Bool.false_eq_true, ↓reduceIte]
+        simp only [constSize, noBareEndZ]
+        exact atomizeP_const br e false
+      | cond cnd y no =>
+        rw [atomizeP]
+        simp only [hdel, Bool.false_eq_true, ↓reduceIte]
+        simp only [constSize, noBareEndZ]
+        have h1 := atomizeP_const br cnd hard
+        have h2 := atomizeP_const br y hard
+        have h3 := atomizeP_const br no hard
+        exact ⟨by rw [h1.1, h2.1, h3.1, (atomizeP_shape br cnd hard).2, (atomizeP_shape br y hard).2,
+          (atomizeP_shape br no hard).2], by rw [h1.2, h2.2, h3.2]⟩
+      | _ =>
+        rw [atomizeP.eq_def]
+        simp only [hdel, Bool.false_eq_true, ↓reduceIte]
+        exact ⟨by simp, by simp⟩
+termination_by e => sizeOf e
+decreasing_by all_goals (simp_wf; (try subst_vars); (try simp); (try omega))
+
+theorem atomizeP_isAlt (br : Nat → Bool) (e : Expr) (hard : Bool) : isAlt (atomizeP br e hard) = isAlt e := by
+  by_cases hdel : (!hard && !isHard br e) = true
+  · rw [atomizeP_easy br e hard hdel]
+  · rw [atomizeP.eq_def]
+    simp only [hdel, Bool.false_eq_true, ↓reduceIte]
+    cases e <;> simp [isAlt]
+
+theorem atomizeAlts_easy (br : Nat → Bool) : ∀ (es : List Expr), isHardAny br es = false → atomizeAlts br es false = es
+  | [], _ => rfl
+  | e :: es, h => by
+    simp only [isHardAny, Bool.or_eq_false_iff] at h
+    simp only [atomizeAlts, atomizeP_easy br e false (by simp [h.1]), atomizeAlts_easy br es h.2]
+
+/-- in a non-hard context an alternation is atomized alternative by alternative (also when it is handed
+    over whole: then nothing changes) -/
+theorem atomizeP_alt_false (br : Nat → Bool) (es : List Expr) :
+    atomizeP br (.alt es) false = .alt (atomizeAlts br es false) := by
+  by_cases h : isHardAny br es = true
+  · rw [atomizeP]; simp [isHard, h]
+  · have h' : isHardAny br es = false := by simpa using h
+    rw [atomizeP_easy br _ false (by simp [isHard, h']), atomizeAlts_easy br es h']
+
+theorem constSizeAll_atomizeAlts (br : Nat → Bool) (es : List Expr) (hard : Bool) :
+    constSizeAll (atomizeAlts br es hard) = constSizeAll es := by
+  rw [atomizeAlts_eq_map]
+  exact constSizeAll_map_of _ _ (fun e _ => (atomizeP_const br e hard).1)
+
+theorem s5ok_easy (br : Nat → Bool) (e : Expr) (h : isHard br e = false) : s5ok br e false = true := by
+  rw [s5ok.eq_def]; simp [h]
+
+theorem s5okAlts_easy (br : Nat → Bool) : ∀ (es : List Expr), isHardAny br es = false → s5okAlts br es false = true
+  | [], _ => by simp [s5okAlts]
+  | e :: es, h => by
+    simp only [isHardAny, Bool.or_eq_false_iff] at h
+    simp only [s5okAlts, Bool.and_eq_true]
+    exact ⟨s5ok_easy br e h.1, s5okAlts_easy br es h.2⟩
+
+theorem s5ok_alt_alts (br : Nat → Bool) (es : List Expr) (h : s5ok br (.alt es) false = true) :
+    s5okAlts br es false = true := by
+  by_cases hh : isHardAny br es = true
+  · rw [s5ok] at h
+    simp only [isHard, hh, Bool.not_true, Bool.and_false, Bool.false_eq_true, ↓reduceIte, Bool.and_eq_true] at h
+    exact h.2
+  · exact s5okAlts_easy br es (by simpa using hh)
+
+/-! ## Look-behind layouts around the code of `e`, against the semantics of another tree `e'` of the same
+minimum size (`e' = atomizeP br e false`) -/
+
+theorem sim5_posBehind_wrap (c : Ctx) (n nS : Nat) (br : Nat → Bool) (hlen : c.len < UNSET)
+    (e e' : Expr) (pc nsv gix : Nat) (code1 : Code) (nsv1 : Nat) (prog : List Insn)
+    (h3e : H3 n e gix) (hcf : condFree e = true) (hm : minSize e' = minSize e) (heq : isHard br e = false → e' = e)
+    (hb : visit br e false (posLookBodyPc (isHard br e) true pc) (nsv + 1) gix = .ok (code1, nsv1))
+    (hc : CodeAt prog pc (wrapPosLook (isHard br e) true nsv (minSize e) code1)) (hnn : n ≤ nsv)
+    (ih : SimOf3 c n nS prog (nsv + 1) nsv1 (condFree e) false (sem c e')
+      (posLookBodyPc (isHard br e) true pc) (posLookBodyPc (isHard br e) true pc + code1.length)) :
+    nsv + 1 ≤ nsv1 ∧ (nsv1 ≤ nS → ∀ cm, Sim2 c n nS prog nsv nsv1 true cm (posBehindOne c e') pc
+      (pc + (wrapPosLook (isHard br e) true nsv (minSize e) code1).length)) := by
+  by_cases hh : isHard br e = true
+  · obtain ⟨hle, ihs⟩ := ih
+    rw [← hm] at hc ⊢
+    simp only [hh, wrapPosLook, posLookBodyPc, ↓reduceIte, Nat.add_zero] at hc hb ihs ⊢
+    refine ⟨hle, fun hnS cm => ?_⟩
+    have hbody := ihs hnS true (Or.inr rfl)
+    rw [hcf] at hbody
+    have hsave : prog[pc + 1]? = some (.save nsv) := hc.left.right.left.left.left.head_at (by addr)
+    have hback : prog[pc + 2]? = some (.goBack (minSize e')) := hc.left.right.left.left.right.head_at (by addr)
+    have hrestore : prog[pc + 3 + code1.length]? = some (.restore nsv) := hc.left.right.right.head_at (by addr)
+    have hend : prog[pc + 3 + code1.length + 1]? = some .endAtomic := hc.right.head_at (by addr)
+    have := sim2_posbehind_atomic (cm := cm) (body := sem c e') (slot := nsv) (hi := nsv1) (a := pc)
+      (m := pc + 3 + code1.length) (k := minSize e')
+      hc.left.left.head hsave hback hrestore hend hnn (by omega) (by omega) (by omega)
+      (hbody.cast (by omega) (by omega)) (keepsGood_sem c n e')
+    exact this.cast rfl (by addr)
+  · have hh' : isHard br e = false := by simpa using hh
+    have := heq hh'
+    subst this
+    exact sim3_posBehind_wrap c n nS br hlen _ pc nsv gix code1 nsv1 prog h3e hcf hb hc hnn ih
+
+theorem sim5_negBehind_wrap (c : Ctx) (n nS : Nat)
+    (e e' : Expr) (pc nsv : Nat) (code1 : Code) (nsv1 : Nat) (prog : List Insn) (hm : minSize e' = minSize e)
+    (hc : CodeAt prog pc (wrapNegLook true pc (minSize e) code1))
+    (ih : SimOf3 c n nS prog nsv nsv1 (condFree e) false (sem c e')
+      (negLookBodyPc true pc) (negLookBodyPc true pc + code1.length)) :
+    nsv ≤ nsv1 ∧ (nsv1 ≤ nS → ∀ cm, Sim2 c n nS prog nsv nsv1 true cm (negBehindOne c e') pc
+      (pc + (wrapNegLook true pc (minSize e) code1).length)) := by
+  obtain ⟨hle, ihs⟩ := ih
+  rw [← hm] at hc ⊢
+  simp only [wrapNegLook, negLookBodyPc, ↓reduceIte] at hc ihs ⊢
+  refine ⟨hle, fun hnS cm => ?_⟩
+  have hsplit : prog[pc]? = some (.split (pc + 1) (pc + 2 + code1.length + 1)) := by
+    have := hc.left.left.head
+    simpa [Nat.add_assoc, Nat.add_comm, Nat.add_left_comm] using this
+  have hback : prog[pc + 1]? = some (.goBack (minSize e')) := hc.left.right.left.head_at (by addr)
+  have hfail : prog[pc + 2 + code1.length]? = some .failNegLook := hc.right.head_at (by addr)
+  have := sim2_negbehind (cm := cm) (body := sem c e') (a := pc) (m := pc + 2 + code1.length) (k := minSize e')
+    hsplit hback hfail (by omega) hle ((ihs hnS true (Or.inr rfl)).cast (by omega) (by omega))
+  exact this.cast rfl (by addr)
+
+/-! ## Leaves: nothing to atomize -/
 
 /-- not one of the constructors `atomizeP` descends into -/
 def isLeafE : Expr → Bool
@@ -185,8 +406,7 @@ def isLeafE : Expr → Bool
   | .alt _ => false
   | .group _ _ => false
   | .repeat _ _ _ _ => false
-  | .look _ .ahead => false
-  | .look _ .aheadNeg => false
+  | .look _ _ => false
   | .atomic _ => false
   | .cond _ _ _ => false
   | _ => true
@@ -196,15 +416,11 @@ theorem atomizeP_leaf (br : Nat → Bool) (e : Expr) (hard : Bool) (h : isLeafE 
   · exact atomizeP_easy br e hard hdel
   · rw [atomizeP.eq_def]
     simp only [hdel, Bool.false_eq_true, ↓reduceIte]
-    cases e with
-    | look e la => cases la <;> first | rfl | simp [isLeafE] at h
-    | _ => first | rfl | simp [isLeafE] at h
+    cases e <;> first | rfl | simp [isLeafE] at h
 
 theorem s5ok_leaf (br : Nat → Bool) (e : Expr) (hard : Bool) (h : isLeafE e = true) : s5ok br e hard = s3ok br e hard := by
   rw [s5ok.eq_def, s3ok.eq_def]
-  cases e with
-  | look e la => cases la <;> first | rfl | simp [isLeafE] at h
-  | _ => first | rfl | simp [isLeafE] at h
+  cases e <;> first | rfl | simp [isLeafE] at h
 
 theorem s5okAll_drop (br : Nat → Bool) (es : List Expr) (k : Nat) (h : s5okAll br es = true) : s5okAll br (es.drop k) = true := by
   induction es generalizing k with
@@ -533,13 +749,168 @@ theorem sim5_visit (c : Ctx) (n nS : Nat) (br : Nat → Bool) (hlen : c.len < UN
             have := this.balTo (b2 := condFree (.look e .aheadNeg)) (fun _ => rfl)
             exact this.cast rfl (by addr)
         | behind =>
-          rw [atomizeP_leaf br _ hard rfl]
-          exact sim3_visit c n nS br hlen _ hard pc nsv gix code nsv' prog
-            (by rw [← s5ok_leaf br _ hard rfl]; exact hok) h3 hv hc hnn
+          rw [atomizeP]
+          simp only [isHard, Bool.not_true, Bool.and_false, Bool.false_eq_true, ↓reduceIte]
+          rw [s5ok] at hok
+          simp only [isHard, Bool.not_true, Bool.and_false, Bool.false_eq_true, ↓reduceIte, Bool.and_eq_true] at hok
+          obtain ⟨⟨hoke, hcf⟩, hz⟩ := hok
+          have h3e := h3.look
+          have hw := h3e.ws
+          have hsh := atomizeP_shape br e false
+          have hcn := atomizeP_const br e false
+          have hw' := hsh.1 hw
+          cases hia : isAlt e with
+          | false =>
+            have hna' := isAlt_false_ne e hia
+            have hna'' : ∀ es, atomizeP br e false ≠ .alt es :=
+              isAlt_false_ne _ (by rw [atomizeP_isAlt]; exact hia)
+            by_cases hcs : constSize e = true
+            · rw [C13_accept_behind_const br e hna' hcs] at hv
+              cases hb : visit br e false (posLookBodyPc (isHard br e) true pc) (nsv + 1) gix with
+              | error err => simp [hb] at hv
+              | ok p =>
+                obtain ⟨code1, nsv1⟩ := p
+                simp only [hb, Except.ok.injEq, Prod.mk.injEq] at hv
+                obtain ⟨rfl, rfl⟩ := hv
+                have ih := sim5_visit c n nS br hlen e false _ (nsv + 1) gix code1 _ prog hoke h3e hb
+                  (wrapPosLook_body_codeAt hc) (by omega)
+                obtain ⟨hle, hs⟩ := sim5_posBehind_wrap c n nS br hlen e (atomizeP br e false) pc nsv gix code1 _ prog
+                  h3e hcf hsh.2 (fun hh => atomizeP_easy br e false (by simp [hh])) hb hc hnn ih
+                refine ⟨by omega, fun hnS cm _ => ?_⟩
+                simp only [condFree, hcf]
+                exact (hs hnS cm).congrGood (fun st hg => sem_behind_one c n _ hna'' hw' (by rw [hcn.1]; exact hcs)
+                  (by rw [hcn.2]; exact hz) st hg (by omega))
+            · have hcs' : constSize e = false := by simpa using hcs
+              rw [C13_accept_behind_not_const br e hna' hcs'] at hv
+              cases hv
+          | true =>
+            -- alternation body
+            obtain ⟨es, rfl⟩ := isAlt_true e hia
+            have hL := h3e.alt
+            have hwA := wellShaped_alt hw
+            have hcfA : condFreeAll es = true := by simpa only [condFree] using hcf
+            rw [atomizeP_alt_false] at hw' hcn hsh ⊢
+            have hwA' := wellShaped_alt hw'
+            have hzA' : noBareEndZAll (atomizeAlts br es false) = true := by
+              have := hcn.2; simp only [noBareEndZ] at this hz; rw [this]; exact hz
+            rw [visit] at hv
+            simp only [isHard, Bool.not_true, Bool.and_false, Bool.false_eq_true, ↓reduceIte] at hv
+            by_cases hcs : constSize (.alt es) = true
+            · -- all alternatives of one size: the ordinary layout around the code of the alternation
+              simp only [hcs, Bool.not_true, Bool.false_eq_true, ↓reduceIte] at hv
+              rw [visitAltBody_eq_visit, show isHardAny br es = isHard br (.alt es) by simp only [isHard],
+                ← minSize_alt es] at hv
+              cases hb : visit br (.alt es) false (posLookBodyPc (isHard br (.alt es)) true pc) (nsv + 1) gix with
+              | error err => simp [hb] at hv
+              | ok p =>
+                obtain ⟨code1, nsv1⟩ := p
+                simp only [hb, Except.ok.injEq, Prod.mk.injEq] at hv
+                obtain ⟨rfl, rfl⟩ := hv
+                have ih := sim5_visit c n nS br hlen (.alt es) false _ (nsv + 1) gix code1 _ prog hoke h3e hb
+                  (wrapPosLook_body_codeAt hc) (by omega)
+                rw [atomizeP_alt_false] at ih
+                obtain ⟨hle, hs⟩ := sim5_posBehind_wrap c n nS br hlen (.alt es) (.alt (atomizeAlts br es false)) pc nsv gix
+                  code1 _ prog h3e hcf hsh.2
+                  (fun hh => by rw [atomizeAlts_easy br es (by simpa only [isHard] using hh)]) hb hc hnn ih
+                refine ⟨by omega, fun hnS cm _ => ?_⟩
+                simp only [condFree, hcfA]
+                exact (hs hnS cm).congrGood (fun st hg => sem_behind_alt_const c n _ hwA'.2 (by rw [hcn.1]; exact hcs)
+                  hzA' st hg (by omega))
+            · -- alternatives of different sizes: an atomic group around an alternation of look-behinds
+              have hcs' : constSize (.alt es) = false := by simpa using hcs
+              simp only [hcs', Bool.not_false, ↓reduceIte] at hv
+              cases hb : lookBehindAlts br es (pc + 1) nsv gix with
+              | error err => simp [hb] at hv
+              | ok p =>
+                obtain ⟨f, endPc, nsv1⟩ := p
+                simp only [hb, Except.ok.injEq, Prod.mk.injEq] at hv
+                obtain ⟨rfl, rfl⟩ := hv
+                have hlenf := lookBehindAlts_len br es (pc + 1) nsv gix f endPc _ hb endPc
+                have hcA := lookBehindAlts_ok_const br es _ _ _ _ hb
+                have hcA' : constSizeAll (atomizeAlts br es false) = true := by
+                  rw [constSizeAll_atomizeAlts]; exact hcA
+                have hcb : CodeAt prog (pc + 1) (f endPc) := hc.left.right.cast (by addr)
+                have hsz : sizeOf es < sizeOf (Expr.look (.alt es) .behind) := by simp; omega
+                obtain ⟨hle, hsim⟩ := sim5_lookBehindAlts c n nS br hlen es (pc + 1) nsv gix f endPc _ prog
+                  (s5ok_alt_alts br es hoke) hcfA hL (by intro h; simp [h] at hwA) hb hnn hcb
+                refine ⟨hle, fun hnS cm _ => ?_⟩
+                have hend : prog[endPc]? = some .endAtomic := hc.right.head_at (by addr)
+                have := sim2_atomic (cm := cm) (a := pc) (m := endPc) hc.left.left.head hend (hsim hnS true)
+                have := this.congrGood (g := sem c (.look (.alt (atomizeAlts br es false)) .behind))
+                  (fun st hg => sem_behind_alt_diff c n _ hwA'.2 hcA' hzA' st hg (by omega))
+                simp only [condFree, hcfA]
+                exact this.cast rfl (by addr)
         | behindNeg =>
-          rw [atomizeP_leaf br _ hard rfl]
-          exact sim3_visit c n nS br hlen _ hard pc nsv gix code nsv' prog
-            (by rw [← s5ok_leaf br _ hard rfl]; exact hok) h3 hv hc hnn
+          rw [atomizeP]
+          simp only [isHard, Bool.not_true, Bool.and_false, Bool.false_eq_true, ↓reduceIte]
+          rw [s5ok] at hok
+          simp only [isHard, Bool.not_true, Bool.and_false, Bool.false_eq_true, ↓reduceIte, Bool.and_eq_true] at hok
+          obtain ⟨hoke, hz⟩ := hok
+          have h3e := h3.look
+          have hw := h3e.ws
+          have hsh := atomizeP_shape br e false
+          have hcn := atomizeP_const br e false
+          have hw' := hsh.1 hw
+          cases hia : isAlt e with
+          | false =>
+            have hna' := isAlt_false_ne e hia
+            have hna'' : ∀ es, atomizeP br e false ≠ .alt es :=
+              isAlt_false_ne _ (by rw [atomizeP_isAlt]; exact hia)
+            by_cases hcs : constSize e = true
+            · rw [C13_accept_behindNeg_const br e hna' hcs] at hv
+              cases hb : visit br e false (negLookBodyPc true pc) nsv gix with
+              | error err => simp [hb] at hv
+              | ok p =>
+                obtain ⟨code1, nsv1⟩ := p
+                simp only [hb, Except.ok.injEq, Prod.mk.injEq] at hv
+                obtain ⟨rfl, rfl⟩ := hv
+                have ih := sim5_visit c n nS br hlen e false _ nsv gix code1 _ prog hoke h3e hb (wrapNegLook_body_codeAt hc) hnn
+                obtain ⟨hle, hs⟩ := sim5_negBehind_wrap c n nS e (atomizeP br e false) pc nsv code1 _ prog hsh.2 hc ih
+                refine ⟨hle, fun hnS cm _ => ?_⟩
+                exact ((hs hnS cm).congrGood (fun st hg => sem_behindNeg_one c n _ hna'' hw' (by rw [hcn.1]; exact hcs)
+                  (by rw [hcn.2]; exact hz) st hg (by omega))).balTo (fun _ => rfl)
+            · have hcs' : constSize e = false := by simpa using hcs
+              rw [C13_accept_behindNeg_not_const br e hna' hcs'] at hv
+              cases hv
+          | true =>
+            obtain ⟨es, rfl⟩ := isAlt_true e hia
+            have hL := h3e.alt
+            have hwA := wellShaped_alt hw
+            rw [atomizeP_alt_false] at hw' hcn hsh ⊢
+            have hwA' := wellShaped_alt hw'
+            have hzA' : noBareEndZAll (atomizeAlts br es false) = true := by
+              have := hcn.2; simp only [noBareEndZ] at this hz; rw [this]; exact hz
+            rw [visit] at hv
+            simp only [isHard, Bool.not_true, Bool.and_false, Bool.false_eq_true, ↓reduceIte] at hv
+            by_cases hcs : constSize (.alt es) = true
+            · simp only [hcs, Bool.not_true, Bool.false_eq_true, ↓reduceIte] at hv
+              rw [visitAltBody_eq_visit, ← minSize_alt es] at hv
+              cases hb : visit br (.alt es) false (negLookBodyPc true pc) nsv gix with
+              | error err => simp [hb] at hv
+              | ok p =>
+                obtain ⟨code1, nsv1⟩ := p
+                simp only [hb, Except.ok.injEq, Prod.mk.injEq] at hv
+                obtain ⟨rfl, rfl⟩ := hv
+                have ih := sim5_visit c n nS br hlen (.alt es) false _ nsv gix code1 _ prog hoke h3e hb
+                  (wrapNegLook_body_codeAt hc) hnn
+                rw [atomizeP_alt_false] at ih
+                obtain ⟨hle, hs⟩ := sim5_negBehind_wrap c n nS (.alt es) (.alt (atomizeAlts br es false)) pc nsv code1 _ prog
+                  hsh.2 hc ih
+                refine ⟨hle, fun hnS cm _ => ?_⟩
+                exact ((hs hnS cm).congrGood (fun st hg => sem_behindNeg_alt_const c n _ hwA'.2 (by rw [hcn.1]; exact hcs)
+                  hzA' st hg (by omega))).balTo (fun _ => rfl)
+            · -- alternatives of different sizes: a sequence of negative look-behinds
+              have hcs' : constSize (.alt es) = false := by simpa using hcs
+              simp only [hcs', Bool.not_false, ↓reduceIte] at hv
+              have hcA := lookBehindNegAlts_ok_const br es _ _ _ _ hv
+              have hcA' : constSizeAll (atomizeAlts br es false) = true := by
+                rw [constSizeAll_atomizeAlts]; exact hcA
+              have hsz : sizeOf es < sizeOf (Expr.look (.alt es) .behindNeg) := by simp; omega
+              obtain ⟨hle, hsim⟩ := sim5_lookBehindNegAlts c n nS br hlen es pc nsv gix code nsv' prog
+                (s5ok_alt_alts br es hoke) hL hv hnn hc
+              refine ⟨hle, fun hnS cm _ => ?_⟩
+              exact ((hsim hnS cm).congrGood (fun st hg => sem_behindNeg_alt_diff c n _ hwA'.2 hcA' hzA' st hg (by omega))).balTo
+                (fun _ => rfl)
       | atomic e =>
         rw [atomizeP]
         simp only [isHard, Bool.not_true, Bool.and_false, Bool.false_eq_true, ↓reduceIte]
@@ -717,6 +1088,116 @@ theorem sim5_visitAlt (c : Ctx) (n nS : Nat) (br : Nat → Bool) (hlen : c.len <
           (by intro h; simp only [Bool.and_eq_true] at h; exact h.2)
         have := Sim2.alt2 (m := pc + 1 + c1.length) hsplit hcj (by simpa using s1') s2' (by omega) (by have := hlen2 endPc2; omega)
         exact this.congr (fun st => by simp [semAlt, atomizeAlts])
+termination_by es => sizeOf es
+decreasing_by all_goals (simp_wf; try omega)
+theorem sim5_lookBehindAlts (c : Ctx) (n nS : Nat) (br : Nat → Bool) (hlen : c.len < UNSET) :
+    ∀ (es : List Expr) (pc nsv gix : Nat) (f : Nat → Code) (endPc nsv' : Nat) (prog : List Insn),
+      s5okAlts br es false = true → condFreeAll es = true → H3L n es gix → es ≠ [] →
+      lookBehindAlts br es pc nsv gix = .ok (f, endPc, nsv') → n ≤ nsv → CodeAt prog pc (f endPc) →
+      nsv ≤ nsv' ∧ (nsv' ≤ nS → ∀ cm, Sim2 c n nS prog nsv nsv' true cm (posBehindAlts c (atomizeAlts br es false)) pc endPc)
+  | [], pc, nsv, gix, f, endPc, nsv', prog, _, _, _, hne, _, _, _ => absurd rfl hne
+  | [e], pc, nsv, gix, f, endPc, nsv', prog, hok, hcf, hL, _, hv, hnn, hc => by
+    simp only [lookBehindAlts] at hv
+    simp only [s5okAlts, Bool.and_eq_true] at hok
+    simp only [condFreeAll, Bool.and_eq_true] at hcf
+    obtain ⟨h3e, _⟩ := hL.cons
+    by_cases hcs : constSize e = true
+    · simp only [hcs, Bool.not_true, Bool.false_eq_true, ↓reduceIte] at hv
+      cases hb : visit br e false (posLookBodyPc (isHard br e) true pc) (nsv + 1) gix with
+      | error err => simp [hb] at hv
+      | ok p =>
+        obtain ⟨c1, nsv1⟩ := p
+        simp only [hb, Except.ok.injEq, Prod.mk.injEq] at hv
+        obtain ⟨rfl, rfl, rfl⟩ := hv
+        have ih := sim5_visit c n nS br hlen e false _ (nsv + 1) gix c1 nsv1 prog hok.1 h3e hb
+          (wrapPosLook_body_codeAt hc) (by omega)
+        obtain ⟨hle, hs⟩ := sim5_posBehind_wrap c n nS br hlen e (atomizeP br e false) pc nsv gix c1 nsv1 prog h3e hcf.1
+          (atomizeP_shape br e false).2 (fun hh => atomizeP_easy br e false (by simp [hh])) hb hc hnn ih
+        refine ⟨by omega, fun hnS cm => ?_⟩
+        exact (hs hnS cm).congr (fun st => by simp [posBehindAlts, atomizeAlts])
+    · simp [hcs] at hv
+  | e :: e2 :: es, pc, nsv, gix, f, endPc, nsv', prog, hok, hcf, hL, _, hv, hnn, hc => by
+    simp only [lookBehindAlts] at hv
+    simp only [s5okAlts, Bool.and_eq_true] at hok
+    simp only [condFreeAll, Bool.and_eq_true] at hcf
+    obtain ⟨h3e, hLs⟩ := hL.cons
+    by_cases hcs : constSize e = true
+    · simp only [hcs, Bool.not_true, Bool.false_eq_true, ↓reduceIte] at hv
+      cases hb : visit br e false (posLookBodyPc (isHard br e) true (pc + 1)) (nsv + 1) gix with
+      | error err => simp [hb] at hv
+      | ok p =>
+        obtain ⟨c1, nsv1⟩ := p
+        simp only [hb] at hv
+        cases hb2 : lookBehindAlts br (e2 :: es)
+            (pc + 1 + (wrapPosLook (isHard br e) true nsv (minSize e) c1).length + 1) nsv1 (gix + groupCount e) with
+        | error err => simp [hb2] at hv
+        | ok p2 =>
+          obtain ⟨f2, endPc2, nsv2⟩ := p2
+          simp only [hb2, Except.ok.injEq, Prod.mk.injEq] at hv
+          obtain ⟨rfl, rfl, rfl⟩ := hv
+          have hlen2 := lookBehindAlts_len br (e2 :: es) _ nsv1 _ f2 endPc2 nsv2 hb2 endPc2
+          have hcW : CodeAt prog (pc + 1) (wrapPosLook (isHard br e) true nsv (minSize e) c1) :=
+            hc.left.left.right.cast (by addr)
+          have hcj : prog[pc + 1 + (wrapPosLook (isHard br e) true nsv (minSize e) c1).length]? = some (.jmp endPc2) :=
+            hc.left.right.head_at (by addr)
+          have hc2 : CodeAt prog (pc + 1 + (wrapPosLook (isHard br e) true nsv (minSize e) c1).length + 1) (f2 endPc2) :=
+            hc.right.cast (by addr)
+          have ih := sim5_visit c n nS br hlen e false _ (nsv + 1) gix c1 nsv1 prog hok.1 h3e hb
+            (wrapPosLook_body_codeAt hcW) (by omega)
+          obtain ⟨hle1, s1⟩ := sim5_posBehind_wrap c n nS br hlen e (atomizeP br e false) (pc + 1) nsv gix c1 nsv1 prog h3e
+            hcf.1 (atomizeP_shape br e false).2 (fun hh => atomizeP_easy br e false (by simp [hh])) hb hcW hnn ih
+          obtain ⟨hle2, s2⟩ := sim5_lookBehindAlts c n nS br hlen (e2 :: es) _ nsv1 _ f2 endPc2 nsv2 prog
+            (by simp [s5okAlts, hok.2.1, hok.2.2]) (by simp [condFreeAll, hcf.2.1, hcf.2.2]) hLs (by simp) hb2 (by omega) hc2
+          refine ⟨by omega, fun hnS cm => ?_⟩
+          have hsplit : prog[pc]? = some (.split (pc + 1)
+              (pc + 1 + (wrapPosLook (isHard br e) true nsv (minSize e) c1).length + 1)) := hc.left.left.left.head
+          have s1' := (s1 (by omega) cm).widen (Nat.le_refl nsv) hle2
+          have s2' := (s2 hnS cm).widen (show nsv ≤ nsv1 by omega) (Nat.le_refl _)
+          have := Sim2.alt2 (m := pc + 1 + (wrapPosLook (isHard br e) true nsv (minSize e) c1).length) hsplit hcj s1' s2'
+            (by omega) (by omega)
+          exact this.congr (fun st => by simp [posBehindAlts, atomizeAlts])
+    · simp [hcs] at hv
+termination_by es => sizeOf es
+decreasing_by all_goals (simp_wf; try omega)
+theorem sim5_lookBehindNegAlts (c : Ctx) (n nS : Nat) (br : Nat → Bool) (hlen : c.len < UNSET) :
+    ∀ (es : List Expr) (pc nsv gix : Nat) (code : Code) (nsv' : Nat) (prog : List Insn),
+      s5okAlts br es false = true → H3L n es gix →
+      lookBehindNegAlts br es pc nsv gix = .ok (code, nsv') → n ≤ nsv → CodeAt prog pc code →
+      nsv ≤ nsv' ∧ (nsv' ≤ nS → ∀ cm, Sim2 c n nS prog nsv nsv' true cm (negBehindSeq c (atomizeAlts br es false)) pc
+        (pc + code.length))
+  | [], pc, nsv, gix, code, nsv', prog, _, _, hv, _, _ => by
+    simp only [lookBehindNegAlts, Except.ok.injEq, Prod.mk.injEq] at hv
+    obtain ⟨rfl, rfl⟩ := hv
+    exact ⟨Nat.le_refl _, fun _ cm => by
+      simpa [negBehindSeq, atomizeAlts] using (Sim2.nil c n nS prog nsv nsv true cm pc).congr (g := negBehindSeq c [])
+        (fun st => by simp [negBehindSeq])⟩
+  | e :: es, pc, nsv, gix, code, nsv', prog, hok, hL, hv, hnn, hc => by
+    simp only [lookBehindNegAlts] at hv
+    simp only [s5okAlts, Bool.and_eq_true] at hok
+    obtain ⟨h3e, hLs⟩ := hL.cons
+    by_cases hcs : constSize e = true
+    · simp only [hcs, Bool.not_true, Bool.false_eq_true, ↓reduceIte] at hv
+      cases hb : visit br e false (negLookBodyPc true pc) nsv gix with
+      | error err => simp [hb] at hv
+      | ok p =>
+        obtain ⟨c1, nsv1⟩ := p
+        simp only [hb] at hv
+        cases hb2 : lookBehindNegAlts br es (pc + (wrapNegLook true pc (minSize e) c1).length) nsv1 (gix + groupCount e) with
+        | error err => simp [hb2] at hv
+        | ok p2 =>
+          obtain ⟨c2, nsv2⟩ := p2
+          simp only [hb2, Except.ok.injEq, Prod.mk.injEq] at hv
+          obtain ⟨rfl, rfl⟩ := hv
+          have ih := sim5_visit c n nS br hlen e false _ nsv gix c1 nsv1 prog hok.1 h3e hb
+            (wrapNegLook_body_codeAt hc.left) hnn
+          obtain ⟨hle1, s1⟩ := sim5_negBehind_wrap c n nS e (atomizeP br e false) pc nsv c1 nsv1 prog
+            (atomizeP_shape br e false).2 hc.left ih
+          obtain ⟨hle2, s2⟩ := sim5_lookBehindNegAlts c n nS br hlen es _ nsv1 _ c2 nsv2 prog hok.2 hLs hb2 (by omega) hc.right
+          refine ⟨by omega, fun hnS cm => ?_⟩
+          have := (s1 (by omega) false).seq (s2 hnS cm) (keepsGood_negBehindOne c n _) hle1 hle2 (by omega) (by omega)
+          exact (this.congr (g := negBehindSeq c (atomizeAlts br (e :: es) false))
+            (fun st => by simp [negBehindSeq, atomizeAlts])).cast rfl (by addr)
+    · simp [hcs] at hv
 termination_by es => sizeOf es
 decreasing_by all_goals (simp_wf; try omega)
 end
